@@ -314,7 +314,7 @@ def run(E: Engine, rep: Report, tier: str) -> dict:
 
     def _float_conv(t_):
         fl = (("name", "float"), ("attr", ("name", "np"), "float64"), ("const", "float64"), ("const", "float"))
-        return any(x[0] == "call" and (dict(x[3]).get("dtype") in fl or (x[1][0] == "attr" and x[1][2] == "astype" and x[2] and x[2][0] in fl) or x[1] == ("name", "float")) for x in _symT.subterms(t_))
+        return any(x[0] == "call" and (dict(x[3]).get("dtype") in fl or (x[1][0] == "attr" and x[1][2] == "astype" and x[2] and x[2][0] in fl) or (x[1][0] == "attr" and x[1][2] in ("array", "asarray", "asanyarray", "AbstractArray", "asfarray") and (len(x[2]) > 1 and x[2][1] in fl or x[1][2] == "asfarray")) or x[1] == ("name", "float")) for x in _symT.subterms(t_))
 
     _seen_u: set = set()
     for l in Sgq.log:
